@@ -470,6 +470,23 @@ func (e *Engine) assumeGlobals(st *State) {
 			st.assume(c.Ne(c.loadCell(&st.heap, KPR, p, 0), c.Const(RgnW, 0)))
 		}
 	}
+	// global fact …: assumed content of write-once package variables
+	for _, gf := range e.GlobalFacts {
+		g := e.lookupGlobal(gf.Key)
+		if g == nil || !refs[g] {
+			continue
+		}
+		if msg := e.frozenCheck(g); msg != "" {
+			unsupported("global %s has an assumed fact but %s", gf.Key, msg)
+		}
+		env := &specEnv{e: e, heap: &st.heap, old: &st.heap, vars: map[string]SVal{}, bound: map[string]*Term{}, rc: e.cur, ext: st.ext}
+		env.pkg = g.Pkg.Pkg
+		t, facts := e.clauseAssume(env, gf.Cl)
+		e.flushWF(st)
+		st.assume(t)
+		st.facts = append(st.facts, facts...)
+		e.noteAbstract("assumed content of package variable " + ShortKey(gf.Key) + ": " + gf.Cl.Text)
+	}
 	names = names[:0]
 	for k := range e.Frozen {
 		names = append(names, k)
@@ -507,6 +524,11 @@ func (e *Engine) frozenCheck(g *ssa.Global) string {
 		}
 		for k := range e.Frozen {
 			if gg := e.lookupGlobal(k); gg != nil {
+				tracked[gg] = true
+			}
+		}
+		for _, gf := range e.GlobalFacts {
+			if gg := e.lookupGlobal(gf.Key); gg != nil {
 				tracked[gg] = true
 			}
 		}
